@@ -128,6 +128,12 @@ def run(c, prog):
         c.violation(R, "drop|panics", f"SharedString::drop contains panic-capable constructs {[s['fp'] for s in bad]} (a panic while dropping aborts or poisons)", drop.sp, instance="drop:no-panic")
     else:
         c.ok(R, "drop:no-panic")
+    arc_calls = [core.callee(n) for n in core.walk_fn(drop) if n.get("k") in ("Call", "MethodCall") and (core.callee(n) or "").startswith("alloc::sync::Arc")]
+    names = [x.rsplit("::", 1)[-1] for x in arc_calls]
+    if names == ["into_inner"]:
+        c.ok(R, "drop:last-release-via-into_inner")
+    else:
+        c.violation("C18.cta", "drop|last-release|" + ",".join(names), f"SharedString::drop decides `I released the last handle` with Arc::{names}; only Arc::into_inner guarantees that exactly one of several concurrent last drops sees the value (with try_unwrap / strong_count two threads can both conclude they are not last, and the dead table entry is never removed)", drop.sp, instance="drop:last-release-via-into_inner")
     lk = [n for n in core.walk_fn(drop) if n.get("k") == "MethodCall" and n["m"] == "lock"]
     ok = False
     for n in core.walk_fn(drop):
